@@ -80,6 +80,21 @@ def r1_hash_free(cx):
                    construct="for %s in %s" % (tv, short(it, 100)))
 
 
+def r1b_no_process_salt(cx):
+    """'independent of the process hash seed': nothing the cleaner writes may be derived from the salted builtin hash() (str / bytes hashing differs per
+    process), from object identity or from a random source.  Sweep over every module of insights.cleaner."""
+    cx.rule("C10.R1", "the pipeline and every stage iterate only ordered containers", floor=15)
+    n = 0
+    for mn in cx.repo.module_names("insights.cleaner"):
+        m = cx.repo.module(mn)
+        n += 1
+        bad = [c for c in ast.walk(m.tree) if isinstance(c, ast.Call) and (call_name(c) in ("hash", "id", "os.urandom", "uuid.uuid4", "uuid.uuid1")
+                                                                          or (call_name(c) or "").startswith(("random.", "secrets.")))]
+        cx.require(not bad, bad[0] if bad else m.tree.body[0], "%s derives nothing from the per-process hash salt, object identity or a random source" % mn, construct=short(bad[0], 80) if bad else mn)
+    if n < 5:
+        cx.error("expected the modules of insights.cleaner, found %d" % n)
+
+
 def r2_one_to_one(cx):
     cx.rule("C10.R2", "one output line per kept input line, original order restored", floor=4)
     cm = cx.repo.module(CL)
@@ -235,6 +250,7 @@ def run(cx):
                                "fixed stage order, one-to-one / reverse-once shape of the line loop, empty-collapse chain up to ContentProvider.write.")
     cx.undecided = ["INFO: Keyword.mapping()/report iterate the set of replaced keywords (order of the *report*, not of cleaned content, is hash dependent)"]
     cx.guard(r1_hash_free)
+    cx.guard(r1b_no_process_salt)
     cx.guard(r2_one_to_one)
     cx.guard(r3_empty)
     cx.guard(r5_no_shared_state)
